@@ -128,6 +128,14 @@ def run_c03(res, tier, seed):
         new_texts = list(texts)
         new_texts[k] = render_tokens(vt)
         cases.append((items, texts, new_texts, k, [lg, f"long victim ({n} statements/variants)"]))
+    # the recorded findings' own inputs, replayed on every run (a finding that stops failing stops being printed)
+    for f in common.known_findings().get("findings", []):
+        ex = (f.get("example") or {}).get("input") or {}
+        if f.get("property") == "C03" and isinstance(ex, dict) and "original" in ex and "text_hex" in ex and "victim" in ex:
+            otexts = ex["original"].split("\n")
+            ntexts = common.unhexs(ex["text_hex"]).split("\n")
+            if len(otexts) == len(ntexts) and 0 <= ex["victim"] < len(otexts) and len(ex["original"]) < 1490:
+                cases.append((None, otexts, ntexts, ex["victim"], ["replay of the recorded example of " + f["key"]] + list(ex.get("damage", []))))
     reqs = []
     for (items, texts, new_texts, v, log) in cases:
         reqs.append("defs\t" + hexs("\n".join(texts)))
@@ -143,6 +151,13 @@ def run_c03(res, tier, seed):
         a0, a1 = out[2 * idx], out[2 * idx + 1]
         if a0.startswith("PANIC") or a1.startswith("PANIC"):
             continue        # C02's subject
+        if items is None:
+            # a replayed example: the kinds of its definitions are those the intact file parses to
+            kinds0 = [nd.split(":")[0] for nd in a0.partition(" | ")[0].split(";") if nd]
+            if len(kinds0) != len(texts):
+                continue
+            items = [("N", k, []) for k in kinds0]
+            cases[idx] = (items, texts, new_texts, v, log)
         stats["damaged_files"] += 1
         stats["victim_function" if items[v][1] == "FUNCTION" else "victim_type"] += 1
         # expected ranges of the untouched items in the damaged file
